@@ -90,6 +90,41 @@ fn a32(out: &mut impl Write, base: usize, src: u32, target: u32) {
     }
 }
 
+/// the same entry patched twice (the first guard still alive): the line reports the second patch, whose
+/// bytes and destination must be those of a first patch; both guards are then dropped newest first
+fn a32_refake(out: &mut impl Write, src: u32, t1: u32, t2: u32) {
+    let addr = (src & !1) as usize;
+    let orig: Vec<u8> = (0..20u8).map(|i| 0x50 + i).collect();
+    unsafe { arena::write(addr - 4, &orig) };
+    let r = quiet_catch(move || unsafe {
+        let g1 = arm::verif_replace(src as usize, t1 as usize);
+        let g2 = arm::verif_replace(src as usize, t2 as usize);
+        let after = arena::read(addr - 4, 20);
+        let info = g2.info();
+        drop(g2);
+        drop(g1);
+        let restored = arena::read(addr - 4, 20);
+        (after, info, restored)
+    });
+    match r {
+        Ok((after, info, restored)) => writeln!(
+            out,
+            "a32patch {:x} {:x} | ok addr={:x} bytes={} frame={} saved={} psize={} restored={} refake={:x}",
+            src,
+            t2,
+            info.func,
+            hexb(&after[4..16]),
+            (after[..4] == orig[..4] && after[16..] == orig[16..]) as u8,
+            hexb(&info.saved),
+            info.patch_size,
+            (restored == orig) as u8,
+            t1
+        )
+        .unwrap(),
+        Err(e) => writeln!(out, "a32patch {:x} {:x} | panic {}", src, t2, e.replace(' ', "_")).unwrap(),
+    }
+}
+
 pub fn run(a: &Args, out: &mut impl Write) {
     silence_panics();
     let mut r = Rng::new(a.seed);
@@ -199,6 +234,25 @@ pub fn run(a: &Args, out: &mut impl Write) {
                 a32(out, b32, (b32 + off) as u32 | 1, t); // Thumb state
             }
         }
+    }
+    // re-fake of an entry that is already patched: all three entry cases, fakes in the same and in
+    // different 64 KiB blocks, both fake states
+    for b32 in [b_lo, b_hi] {
+        for off in [16usize, 18, 4096 - 6, 4096 - 4] {
+            for (t1, t2) in [(0x0002_4001u32, 0x0005_8001u32), (0x0002_4000, 0x0002_4100), (0x8123_4560, 0x0123_4561), (0xffff_0001, 0x0000_ffff)] {
+                if off % 4 == 0 {
+                    a32_refake(out, (b32 + off) as u32, t1, t2);
+                }
+                a32_refake(out, (b32 + off) as u32 | 1, t1, t2);
+            }
+        }
+    }
+    for _ in 0..a.n / 8 {
+        let b32 = if r.chance(1, 2) { b_lo } else { b_hi };
+        let off = 16 + 2 * r.below(2040) as usize;
+        let thumb = r.chance(2, 3);
+        let off = if thumb { off } else { off & !3 };
+        a32_refake(out, (b32 + off) as u32 | thumb as u32, r.next() as u32, r.next() as u32);
     }
     for &l in &literal_pool() {
         for d in [0u32, 1, u32::MAX] {
